@@ -20,8 +20,10 @@ def counters(method, nproc, n, held=False):
     v = ctx.Value('i', 0)
     seq = ctx.RawValue('i', 0) if hasattr(ctx, 'RawValue') else sc.RawValue('i', 0)
     ps, conns = [], []
+    hold = None
     if held:
         v.get_lock().acquire()
+        t_acq = time.monotonic()
     for _ in range(nproc):
         r, w = ctx.Pipe(duplex=False)
         p = ctx.Process(target=targets.locked_incr, args=(v, seq, n, w))
@@ -36,7 +38,8 @@ def counters(method, nproc, n, held=False):
         seq.value = s0 + 1
         time.sleep(0.05)
         v.value = r0 + 1
-        logs.append((s0, r0, r0 + 1))
+        logs.append((s0, r0, r0 + 1, time.monotonic()))
+        hold = (t_acq, time.monotonic())
         v.get_lock().release()
     for r in conns:
         if not r.poll(60):
@@ -46,8 +49,11 @@ def counters(method, nproc, n, held=False):
         p.join(10)
     logs.sort()
     obs = [{'act': {'name': 'Init'}, 'state': {'val': 0}}]
-    for s, rd, wr in logs:
-        obs.append({'act': {'name': 'Incr', 'read': rd, 'written': wr, 'seq': s}, 'state': {'val': wr}})
+    for s, rd, wr, t in logs:
+        # inhold: somebody else's locked section lies inside the interval in which the parent held the lock
+        inhold = bool(hold and hold[0] < t < hold[1] and (s, rd) != (s0, r0))
+        obs.append({'act': {'name': 'Incr', 'read': rd, 'written': wr, 'seq': s, 'inhold': inhold},
+                    'state': {'val': wr}})
     return {'method': method + ('+held' if held else ''), 'nproc': nproc, 'n': n, 'final': v.value,
             'expected': nproc * n + (1 if held else 0), 'obs': obs}
 
